@@ -24,6 +24,10 @@ type Ent struct {
 	Roles []string
 	Note  string
 	Ref   *string
+	// LinkField / LinkIDs: when LinkField is set, PersistEntity hands LinkIDs to PersistContext.SetLinkedIds
+	// (the way an application persists a many-to-many field together with the entity). Never loaded back.
+	LinkField string
+	LinkIDs   []string
 }
 
 func (e *Ent) GetEntityType() string { return e.Type }
@@ -73,6 +77,9 @@ func (s entStrategy) PersistEntity(e *Ent, ctx *boltz.PersistContext) {
 	ctx.SetStringList(FRoles, e.Roles)
 	ctx.SetString(s.k(FNote), e.Note)
 	ctx.SetStringP(s.k(FRef), e.Ref)
+	if e.LinkField != "" && ctx.Store.GetLinkCollection(e.LinkField) != nil {
+		ctx.SetLinkedIds(e.LinkField, e.LinkIDs)
+	}
 }
 
 type kidStrategy struct {
@@ -90,6 +97,9 @@ func (s *kidStrategy) FillEntity(k *Kid, b *boltz.TypedBucket) {
 func (s *kidStrategy) PersistEntity(k *Kid, ctx *boltz.PersistContext) {
 	s.parent.GetEntityStrategy().PersistEntity(&k.Ent, ctx.GetParentContext())
 	ctx.SetString(FExtra, k.Extra)
+	if k.LinkField != "" && ctx.Store.GetLinkCollection(k.LinkField) != nil {
+		ctx.SetLinkedIds(k.LinkField, k.LinkIDs) // a link field declared on the child store
+	}
 }
 
 // Wiring of the Ref field of a store.
@@ -382,6 +392,9 @@ type EntSpec struct {
 	Migrate  bool     `json:"migrate,omitempty"` // BaseExtEntity.Migrate: keep the payload's timestamps on create
 	Extra    string   `json:"extra,omitempty"`   // child stores only
 	TagV     *string  `json:"tag,omitempty"`     // tags = {"t": TagV} when set
+	// LinkField / LinkIDs: persist the many-to-many field LinkField with PersistContext.SetLinkedIds(LinkField, LinkIDs)
+	LinkField string   `json:"linkField,omitempty"`
+	LinkIDs   []string `json:"linkIds,omitempty"`
 }
 
 func (s EntSpec) ToEnt(typ, id string) *Ent {
@@ -389,6 +402,7 @@ func (s EntSpec) ToEnt(typ, id string) *Ent {
 	e.Id = id
 	e.IsSystem = s.IsSystem
 	e.Migrate = s.Migrate
+	e.LinkField, e.LinkIDs = s.LinkField, append([]string(nil), s.LinkIDs...)
 	if s.TagV != nil {
 		e.Tags = map[string]interface{}{"t": *s.TagV}
 	}
@@ -653,7 +667,12 @@ func (m *Model) Create(store, id string, s EntSpec, system bool) []string {
 			return r
 		}
 		next.Kid[store] = s.Extra
-		m.Ents[parent][id] = next
+		trial := m.Clone()
+		trial.Ents[parent][id] = next
+		if r := trial.persistLinks(store, id, s, nil); len(r) > 0 {
+			return r
+		}
+		*m = *trial
 		return nil
 	}
 	if _, ok := m.Ents[store][id]; ok {
@@ -663,8 +682,49 @@ func (m *Model) Create(store, id string, s EntSpec, system bool) []string {
 	if r := m.checkWrite(store, id, nil, next, system); len(r) > 0 {
 		return r
 	}
-	m.Ents[store][id] = next
+	trial := m.Clone()
+	trial.Ents[store][id] = next
+	if r := trial.persistLinks(store, id, s, nil); len(r) > 0 {
+		return r
+	}
+	*m = *trial
 	return nil
+}
+
+// persistLinks models PersistContext.SetLinkedIds issued from PersistEntity: the entity (already written into m) is
+// persisted through store (top-level or child); fields is the patch selection (nil = everything). The call reaches
+// the link collection only when the collection is declared on a store level that takes part in the write.
+func (m *Model) persistLinks(store, id string, s EntSpec, fields []string) []string {
+	if s.LinkField == "" {
+		return nil
+	}
+	if fields != nil && !contains(fields, s.LinkField) {
+		return nil
+	}
+	base := m.BaseStore(store)
+	decl := ""
+	for _, l := range m.Cfg.Links {
+		if l.RefCounted {
+			continue
+		}
+		for _, side := range [][2]string{{l.A, l.FieldA}, {l.B, l.FieldB}} {
+			if side[1] != s.LinkField || m.BaseStore(side[0]) != base {
+				continue
+			}
+			switch {
+			case side[0] == base: // declared on the parent: every write of the entity passes the parent's strategy
+				decl = side[0]
+			case side[0] == store: // declared on the child store the write goes through
+				decl = side[0]
+			case store == base && m.LinkEndExists(side[0], id): // write through the parent, routed to the child store holding the entity
+				decl = side[0]
+			}
+		}
+	}
+	if decl == "" {
+		return nil
+	}
+	return m.applyLink(Op{Kind: "setlinks", Store: decl, Field: s.LinkField, ID: id, Keys: s.LinkIDs})
 }
 
 // Update predicts and applies an update / patch. fields == nil means full update.
@@ -743,7 +803,12 @@ func (m *Model) Update(store, id string, s EntSpec, fields []string, system bool
 	if r := append(m.checkWrite(parent, id, old, next, system), kidCauses...); len(r) > 0 {
 		return r
 	}
-	m.Ents[parent][id] = next
+	trial := m.Clone()
+	trial.Ents[parent][id] = next
+	if r := trial.persistLinks(store, id, s, fields); len(r) > 0 {
+		return r
+	}
+	*m = *trial
 	return nil
 }
 
